@@ -193,7 +193,9 @@ def run_stats(case):
                 got[key] = (list(map(float, ye)), list(map(int, xe)),
                             list(map(int, xs)))
                 res.see("stat_records_checked", len(recs))
-            extra = set(m.stats) - set(ref)
+            # records a member made on its own before it joined the list
+            extra = set(m.stats) - set(ref) - ({"episode_length"} if pre.get(j)
+                                               else set())
             if extra:
                 res.violation("C20/extra_records", f"unexpected keys {extra}")
             got_all.append(got)
